@@ -24,8 +24,9 @@ def sh(cmd, **kw):
 
 
 def confirm(pid, x):
-    src = "/tmp/wt/%s_out" % pid
+    src = "/tmp/wt/%s_out" % pid  # pid may carry a wave suffix, e.g. C05w3
     name = "%s%s" % (pid, x)
+    prop = pid[:3]
     patch, demo, notes = (os.path.join(src, f % x) for f in ("patch%s.diff", "demo%s.py", "notes%s.md"))
     for f in (patch, demo):
         if not os.path.exists(f):
@@ -38,7 +39,7 @@ def confirm(pid, x):
     scratch = wt + "_scratch"
     os.makedirs(scratch, exist_ok=True)
     env = dict(os.environ, PYTHONPATH=wt + "/src")
-    meta = {"id": name, "property": pid, "author": "independent sub-agent (given only the property text and a scratch worktree)", "base_commit": sh("git -C /repo rev-parse HEAD").stdout.strip()}
+    meta = {"id": name, "property": prop, "author": "independent sub-agent (given only the property text and a scratch worktree)", "base_commit": sh("git -C /repo rev-parse HEAD").stdout.strip()}
     try:
         r0 = subprocess.run(["/venv/bin/python", demo], cwd=scratch, env=env, capture_output=True, text=True, timeout=1800)
         meta["demo_exit_clean"] = r0.returncode
